@@ -122,6 +122,48 @@ impl Scenario for C13 {
                 _ => Op::new("add_s", &[t, rng.below(4) as f64, *rng.pick(&[100.0, 50.0, 100.0, 120.0, -5.0, 44.0, 300.0, 356.0]), *rng.pick(&[0.0, 1.0, 0.0, 1.0, -1.0, 2.0, -2.0, 65538.0, 65536.0, 65535.0])]),
             }
         };
+        // rarely: a bulk history — one or two kinds, 60..700 adds with unique values (so which add survives at a time is
+        // attributable), arriving ascending, descending, shuffled, or ascending followed by inserts near the front, with
+        // re-adds at stored times mixed in. Lists cross every growth step of their backing store and every size class
+        // of a sort or search routine.
+        if rng.chance(1, 150) {
+            p.scen = "bulk-history".into();
+            let n = if rng.chance(1, 4) { 380 + rng.below(320) } else { 60 + rng.below(140) };
+            let kinds: Vec<usize> = if rng.chance(2, 3) { vec![rng.below(4)] } else { vec![rng.below(4), rng.below(4)] };
+            let mut times: Vec<f64> = (0..n).map(|i| i as f64 * 0.5 - 8.0).collect();
+            match rng.below(4) {
+                0 => {}
+                1 => times.reverse(),
+                2 => rng.shuffle(&mut times),
+                _ => {
+                    // ascending, but every fourth time is held back and inserted afterwards (front half first)
+                    let (mut a, mut b) = (vec![], vec![]);
+                    for (i, t) in times.iter().enumerate() {
+                        if i % 4 == 1 { b.push(*t) } else { a.push(*t) }
+                    }
+                    a.extend(b);
+                    times = a;
+                }
+            }
+            let readd = rng.below(4);
+            for (i, t) in times.iter().enumerate() {
+                let mut ts = vec![*t];
+                if readd > 0 && i > 0 && rng.chance(readd, 8) {
+                    ts.push(times[rng.below(i)]); // a stored time again, with a new value
+                }
+                for t in ts {
+                    let u = p.ops.len() as f64;
+                    let k = *rng.pick(&kinds);
+                    p.ops.push(match k {
+                        0 => Op::new("add_t", &[t, 100.0 + u, 0.0, 4.0]),
+                        1 => Op::new("add_d", &[t, 0.5 + u / 1024.0, 1.0]),
+                        2 => Op::new("add_e", &[t, 0.0, 0.5 + u / 1024.0]),
+                        _ => Op::new("add_s", &[t, 1.0, u, 0.0]),
+                    });
+                }
+            }
+            return p;
+        }
         // one plan in ten is a long history (lists grow beyond any small internal threshold; equal-time adds land on
         // every index), times drawn from a pool so that replacements happen everywhere
         let long = rng.chance(1, 10);
@@ -256,12 +298,16 @@ impl Scenario for C13 {
             // memo keyed by the probe time would still hold the pre-add answer), then the full sweep — on the real
             // collection when it holds no NaN-time point
             let has_nan = cp.timing_points.iter().any(|p| p.time.is_nan()) || cp.difficulty_points.iter().any(|p| p.time.is_nan()) || cp.effect_points.iter().any(|p| p.time.is_nan()) || cp.sample_points.iter().any(|p| p.time.is_nan());
+            // bulk histories: the full quadratic sweep only now and then, the neighbourhood of the add every time
+            let sparse = plan.ops.len() > 160 && i % 41 != 0 && i + 1 != plan.ops.len();
             if has_nan {
                 check_lookups(&finite(&cp), &m, i, st)?;
             } else {
-                let repeat = [last_probe, t];
+                let repeat = [last_probe, t, t - 0.25, t + 0.25, f64::MIN, f64::MAX];
                 check_lookup_at(&cp, &m, i, &repeat)?;
-                check_lookups(&cp, &m, i, st)?;
+                if !sparse {
+                    check_lookups(&cp, &m, i, st)?;
+                }
                 last_probe = if i % 2 == 0 { t } else { f64::MAX };
                 // leave the collection with that probe as the most recent lookup of every kind
                 let _ = (cp.sample_point_at(last_probe), cp.timing_point_at(last_probe), cp.difficulty_point_at(last_probe), cp.effect_point_at(last_probe));
